@@ -44,6 +44,9 @@ enum Ans {
     Error(&'static str),
     Crash,
     Exit(Option<&'static str>),
+    /// the command changes the command table while the script runs: it removes the registered
+    /// on_error command, or registers a continuing one when there is none; result Continue(None)
+    SwapHandler,
 }
 
 fn menu(n: usize) -> Vec<Ans> {
@@ -64,6 +67,7 @@ fn menu(n: usize) -> Vec<Ans> {
         Ans::Exit(Some("3")),
         Ans::Exit(Some("-1")),
         Ans::Exit(Some("abc")),
+        Ans::SwapHandler,
     ]
 }
 
@@ -102,6 +106,8 @@ const BUDGET: usize = 40;
 
 /// The abstract machine of the statement.
 fn reference(prog: &[Line], on_error: OnError, tape: &Tape, source: Option<&str>) -> Outcome {
+    // the handler is whatever is registered under the name when the error happens
+    let mut on_error = on_error;
     let n = prog.len();
     let menu = menu(n);
     let mut labels: BTreeMap<&str, usize> = BTreeMap::new();
@@ -151,6 +157,11 @@ fn reference(prog: &[Line], on_error: OnError, tape: &Tape, source: Option<&str>
                 match ans {
                     Ans::Continue(v) => {
                         set_out(&mut vars, v);
+                        pc += 1;
+                    }
+                    Ans::SwapHandler => {
+                        on_error = if on_error == OnError::Absent { OnError::Continue } else { OnError::Absent };
+                        set_out(&mut vars, None);
                         pc += 1;
                     }
                     Ans::Label(lb) => {
@@ -232,6 +243,22 @@ impl Rig {
                         menu[tape.borrow().choose(c.line as u32, menu.len() as u16) as usize].clone()
                     };
                     match ans {
+                        Ans::SwapHandler => {
+                            if c.commands.exists("on_error") {
+                                c.commands.remove("on_error");
+                            } else {
+                                let calls = calls.clone();
+                                let _ = c.commands.set(fn_command("on_error", move |c| {
+                                    calls.borrow_mut().push(Call {
+                                        cmd: "on_error",
+                                        args: c.arguments.clone(),
+                                        line: c.line,
+                                    });
+                                    CommandResult::Continue(Some("ignored".to_string()))
+                                }));
+                            }
+                            CommandResult::Continue(None)
+                        }
                         Ans::Continue(v) => CommandResult::Continue(v.map(String::from)),
                         Ans::Label(l) => CommandResult::GoTo(None, GoToValue::Label(l.to_string())),
                         Ans::Line(t) => CommandResult::GoTo(None, GoToValue::Line(t)),
@@ -293,8 +320,8 @@ impl Rig {
 
 pub fn bounds(tier: Tier) -> Value {
     match tier {
-        Tier::Quick => json!({"lines": 3, "deviations": 2, "horizon": 8, "answers_per_choice": 16}),
-        Tier::Thorough => json!({"lines": 4, "deviations": 3, "horizon": 8, "answers_per_choice": 16}),
+        Tier::Quick => json!({"lines": 3, "deviations": 2, "horizon": 8, "answers_per_choice": 17}),
+        Tier::Thorough => json!({"lines": 4, "deviations": 3, "horizon": 8, "answers_per_choice": 17}),
     }
 }
 
@@ -520,7 +547,7 @@ pub fn crash_sig(_case: &Value, kind: &str) -> String {
     kind.to_string()
 }
 
-pub const RULE: &str = "programs: every sequence of 1..n lines over 12 line forms (label none/:a/:b x {no command, `k p ${x}`, `x = k p ${x}`, unknown command `nope p`}), duplicates of labels included; configurations: on_error command absent / continuing / exiting / crashing, script as text and (small programs) as file; answers: at every invocation of the scripted command k one of 16 results (Continue with/without value, GoTo label :a/:b/undefined, GoTo line 0/n/n+5, Error with plain message / message containing ${x}, Crash, Exit none/0/3/-1/abc), explored with a bounded number of deviations from the default answer within a horizon of choice points. Every execution of the real runner is compared with the abstract machine run on the same answers: sequence of invocations with bound arguments and the `line` each command sees, on_error arguments (message, 1-based line, source), final variables, success or failure with source line and file. evaluations = programs x configurations; transitions = executions; states = distinct (calls, outcome, deviations) classes";
+pub const RULE: &str = "programs: every sequence of 1..n lines over 12 line forms (label none/:a/:b x {no command, `k p ${x}`, `x = k p ${x}`, unknown command `nope p`}), duplicates of labels included; configurations: on_error command absent / continuing / exiting / crashing, script as text and (small programs) as file; answers: at every invocation of the scripted command k one of 17 results (Continue with/without value, Continue after removing the registered on_error command / registering one where there is none, GoTo label :a/:b/undefined, GoTo line 0/n/n+5, Error with plain message / message containing ${x}, Crash, Exit none/0/3/-1/abc), explored with a bounded number of deviations from the default answer within a horizon of choice points. Every execution of the real runner is compared with the abstract machine run on the same answers: sequence of invocations with bound arguments and the `line` each command sees, on_error arguments (message, 1-based line, source), final variables, success or failure with source line and file. evaluations = programs x configurations; transitions = executions; states = distinct (calls, outcome, deviations) classes";
 pub const ASSUMPTIONS: &[&str] = &["lines with an output variable but no command are not generated (the statement speaks of command results)", "error messages are compared only through the on_error arguments; failures are compared by line and source file"];
 pub const EXHAUSTIVE: bool = true;
 pub const WALL_CAP_S: (u64, u64) = (55, 1500);
